@@ -488,6 +488,9 @@ def scope_memory(prog, rep, methods=None, rule="SCOPE"):
                     rep.check(ok, rule, fi.short, f"{norm(p)}", "membership test of the bucket parameter", "membership test of something other than the bucket parameter", fi.loc(n))
                 elif bp is None and isinstance(p, (ast.For, ast.comprehension)) and p.iter is n:
                     rep.ok(rule, fi.short, cons, "iteration over bucket ids in a listing method", fi.loc(n))
+                elif isinstance(p, ast.Attribute) and p.attr in ("pop", "get", "setdefault") and isinstance(parent(p), ast.Call) and parent(p).func is p and parent(p).args and bp is not None:
+                    ok = is_param_ref(parent(p).args[0], fi, bp)
+                    rep.check(ok, rule, fi.short, f"self.{n.attr}.{p.attr}({norm(parent(p).args[0])}, ...)", "keyed by the bucket parameter", f"per-bucket state reached through `.{p.attr}({norm(parent(p).args[0])})`, not through the bucket parameter `{bp}`", fi.loc(n))
                 else:
                     rep.violation(rule, fi.short, f"{norm(p)[:60]}", "per-bucket container used as a whole (not through the bucket parameter): can reach other buckets' state", fi.loc(n))
     if methods is None:
@@ -798,11 +801,22 @@ def upsert_rule(prog, rep, rule="UPSERT"):
     rep.check(ok, rule, mfi.short, "dispatch on id", "id-less events are appended, id-bearing ones replace", "MemoryStorage.insert_one does not dispatch on `event.id is None`", mfi.loc())
 
 
+def const_int(e):
+    if isinstance(e, ast.Constant) and isinstance(e.value, int) and not isinstance(e.value, bool):
+        return e.value
+    if isinstance(e, ast.UnaryOp) and isinstance(e.op, ast.USub) and isinstance(e.operand, ast.Constant) and isinstance(e.operand.value, int):
+        return -e.operand.value
+    return None
+
+
 def idalloc_memory(prog, rep, rule="IDALLOC"):
     rep.rule(rule, "MemoryStorage allocates the id of a new event as max(id over the addressed bucket's live events) + k (k >= 1), 0-based for an empty bucket: unique within the bucket")
     fi = prog.func("MemoryStorage.insert_one")
     bp = bparam(fi)
-    asg = [n for n in walk_own(fi.node) if isinstance(n, ast.Assign) and any(norm(t) in ("event.id", "event['id']") for t in n.targets)]
+    # the object that is appended to the bucket is the one whose id is allocated
+    appended = {norm(c.args[0]) for c in walk_own(fi.node) if isinstance(c, ast.Call) and isinstance(c.func, ast.Attribute) and c.func.attr == "append" and norm(c.func.value) == f"self.db[{bp}]" and c.args}
+    names = appended | {"event"}
+    asg = [n for n in walk_own(fi.node) if isinstance(n, ast.Assign) and any(norm(t) in {f"{x}.id" for x in names} | {f"{x}['id']" for x in names} for t in n.targets)]
     found = False
     for a in asg:
         v = a.value
@@ -814,8 +828,11 @@ def idalloc_memory(prog, rep, rule="IDALLOC"):
                     elt = norm(x.args[0].elt)
                     var = norm(g.target)
                     elt_ok = elt in (f"int({var}.id or 0)", f"{var}.id", f"int({var}.id)", f"{var}.id or 0")
+                    kws = {k.arg: k.value for k in x.keywords}
+                    # max(..., default=d): the first id is d + k and must not be negative; no other keyword
+                    dflt_ok = set(kws) <= {"default"} and (not kws or (isinstance(kws["default"], (ast.Constant, ast.UnaryOp)) and isinstance(const_int(kws["default"]), int) and const_int(kws["default"]) + y.value >= 0 and const_int(kws["default"]) < y.value + 0 + 10**9))
                     found = True
-                    rep.check(it_ok and elt_ok, rule, fi.short, "new id", f"{norm(v)}", f"new id `{norm(v)}` is not max over the addressed bucket's ids + k: ids can collide with a live event", fi.loc(a))
+                    rep.check(it_ok and elt_ok and dflt_ok, rule, fi.short, "new id", f"{norm(v)}", f"new id `{norm(v)}` is not max over the addressed bucket's ids + k: ids can collide with a live event", fi.loc(a))
         elif isinstance(v, ast.Constant) and isinstance(v.value, int):
             # empty-bucket branch: must be under `else` of `if self.db[bucket]:`
             p = parent(a)
